@@ -342,11 +342,12 @@ pub fn fuzz_one(tape: &[u16]) -> crate::engine::Outcome {
         typed: false,
     };
     static KNOWN: std::sync::OnceLock<crate::engine::KnownFile> = std::sync::OnceLock::new();
-    let known = KNOWN.get_or_init(|| crate::engine::load_known("/verif/known_findings.json"));
-    let mut ctx = Ctx::new("C07", crate::engine::Tier::Quick, 1, 0, 1, 0, 1.0, crate::engine::Mode::Search, known, None, None);
-    super::c07::Meaning.run(&case, &mut ctx)?;
-    super::c08::Idempotent.run(&case, &mut ctx)?;
-    super::c09::Comments.run(&case, &mut ctx)?;
+    let known = KNOWN.get_or_init(|| crate::engine::load_known(concat!(env!("CARGO_MANIFEST_DIR"), "/../known_findings.json")));
+    // one context per property: each steps over the findings recorded for that property only
+    let mk = |prop: &str| Ctx::new(prop, crate::engine::Tier::Quick, 1, 0, 1, 0, 1.0, crate::engine::Mode::Search, known, None, None);
+    super::c07::Meaning.run(&case, &mut mk("C07"))?;
+    super::c08::Idempotent.run(&case, &mut mk("C08"))?;
+    super::c09::Comments.run(&case, &mut mk("C09"))?;
     Ok(())
 }
 
